@@ -4,7 +4,6 @@ import (
 	"errors"
 	"fmt"
 	"image"
-	"image/color"
 	"strings"
 	"sync"
 
@@ -29,10 +28,18 @@ func grid2D(c *core.Ctx, cs *core.Case, bc barcode.Barcode) (*grid.Grid, bool) {
 		c.Fail("C11", cs, "2D barcode has bounds %v, want origin (0,0)", b)
 		return nil, false
 	}
-	g, ok, bx, by := grid.FromImage(bc, color.Black, color.White)
-	if !ok {
-		c.Fail("C11", cs, "pixel (%d,%d) is %v: neither black nor white", bx, by, bc.At(bx, by))
-		return nil, false
+	g := grid.New(b.Dx(), b.Dy())
+	for y := 0; y < g.H; y++ {
+		for x := 0; x < g.W; x++ {
+			switch bw(bc.At(x, y)) {
+			case 1:
+				g.Bits[y*g.W+x] = true
+			case 0:
+			default:
+				c.Fail("C11", cs, "pixel (%d,%d) is %v: neither black nor white", x, y, bc.At(x, y))
+				return nil, false
+			}
+		}
 	}
 	return g, true
 }
